@@ -6,6 +6,10 @@
 // The tokens are the words of the set in hex ("-" = the empty word), strictly increasing, so
 // deleting tokens keeps a case valid.  The patterns are searched with blank b.
 //
+// Further header fields (foreign.go, history.go): n=<number of sources>, x=<i>:<hex stream>/...
+// (source i is read from a stream written with another node numbering), p=<program>, v=e|f, and
+// tokens "<i>:<hex word>" for the word set of source i.
+//
 // Observation: the projected part describes the automaton decoded from GobEncode(d) by what
 // the property determines (words, ranks, word count, node count, pattern search results) and
 // says whether encoding the decoded automaton gives the same bytes.  The strict part holds the
@@ -30,7 +34,7 @@ import (
 )
 
 // Rule is the non-triviality rule printed in the evidence.
-const Rule = "case = a strictly increasing word set (the automaton is dawg.New of it) plus search patterns; non-trivial = the automaton shares a node (node count < number of distinct prefixes) or some word is a proper prefix of another; distinct by case text"
+const Rule = "case = a strictly increasing word set (the automaton is dawg.New of it) or a stream in the shape GobEncode writes with another node numbering (the automaton is GobDecode of it), plus search patterns; non-trivial = the automaton shares a node (node count < number of distinct prefixes) or some word is a proper prefix of another; a history case (several such automata and a program of encode/decode/observe steps whose results are all held) is non-trivial when at least two results are held at once or a decode goes into a receiver that already held an automaton, and some word set is non-empty; distinct by case text"
 
 // WfLimit: the domain check is run (on both sides) on automata with at most this many nodes.
 const WfLimit = 3000
